@@ -231,7 +231,7 @@ fn c19_async_fleet_seq(case: &Case) {
         let fleet = AsyncFleet::with_options(
             vec![cfg],
             FleetOptions {
-                default_timeout: Duration::from_millis(timeout_ms),
+                default_timeout: Duration::from_millis(pick(&[1u64, timeout_ms, 5_000])), // (the fleet-wide default is not what a node with its own timeout uses)
                 retry_policy: RetryPolicy { max_attempts, delay: Duration::from_millis(delay_ms) },
             },
         )
@@ -367,7 +367,7 @@ fn c19_async_fleet_broadcast(case: &Case) {
         }
         let fleet = AsyncFleet::with_options(
             cfgs,
-            FleetOptions { default_timeout: Duration::from_millis(50), retry_policy: RetryPolicy { max_attempts, delay: Duration::from_millis(5) } },
+            FleetOptions { default_timeout: Duration::from_millis(pick(&[1u64, 50, 5_000])), retry_policy: RetryPolicy { max_attempts, delay: Duration::from_millis(5) } },
         )
         .unwrap();
         let out = fleet.broadcast_json("/m/bc", Some(&json!({"x": 1})), &want_tags).await;
